@@ -101,13 +101,20 @@ class ConcatenatedData(Concatenated, Data):
             raise ValueError(
                 "The 'parent' of a concatenated data must have an 'add_children' method."
             )
+        parental_attr = parent.concatenator.get_concatenated_attributes(parent.uid)
+        key = f"Property:{self.name}"
+
+        if key in parental_attr and parental_attr[key] != as_str_if_uuid(self.uid):
+            raise ValueError(
+                f"Data with name '{self.name}' already present "
+                f"on the drillhole '{parent.name}'."
+            )
+
         parent.add_children([self])
         self._parent: ConcatenatedObject = parent
 
-        parental_attr = self.concatenator.get_concatenated_attributes(self.parent.uid)
-
-        if f"Property:{self.name}" not in parental_attr:
-            parental_attr[f"Property:{self.name}"] = as_str_if_uuid(self.uid)
+        if key not in parental_attr:
+            parental_attr[key] = as_str_if_uuid(self.uid)
 
     @property
     def n_values(self) -> int | None:
